@@ -15,7 +15,7 @@ from hypothesis import strategies as st
 from haiway import ctx
 from hv import vloop
 from hv.core import Outcome
-from hv.props.c03 import Sched, next_choices
+from hv.props.c03 import Sched, _collect, _gc_fence, next_choices
 
 PID = "C09"
 LEVEL = "exploration"
@@ -27,6 +27,7 @@ RULE = (
     "list is a linearisation of the enter/exit steps; small trees are run under all linearisations (cap 2000); "
     "non-trivial = >=3 nodes and some child exits or is created after its parent's exit; distinct = distinct tree+schedule"
 )
+RULE += '; a third of the cases run a garbage collection between any two steps (fenced heap)'
 LEVEL_TEXT = (
     "History invariant over the harness's own event log: every entered-and-left scope fires its completion exactly "
     "once, after its own exit and after the exit of every descendant created before it completed; from then on "
@@ -147,6 +148,10 @@ def execute(case, sched: Sched):
             tid = runnable[sched.pick(len(runnable))]
             tasks[tid]["cmd"].set_result("step")
             await vloop.settle()
+            if case.get("gc"):
+                # a garbage collection between any two steps must change nothing (a scope that has been left but still
+                # waits for its subtree is referenced by nobody but that subtree)
+                _collect()
             await asyncio.sleep(0.125)  # the clock moves between steps, so frozen times are distinguishable
         for _ in range(len(scripts) + 3):
             await asyncio.sleep(1.5)  # let clock-advance steps in flight finish
@@ -264,6 +269,9 @@ def run_case(case) -> Outcome:
     out = Outcome()
     runs = 0
     classes = set()
+    if case.get("gc"):
+        _gc_fence()
+        classes.add("gc-between-steps")
     has_async_cb = any(s.get("completion") == "async" for sc in case["tasks"] for s in sc)
     outliving = any(s["s"] == "spawn" and s["via"] == "asyncio" for sc in case["tasks"] for s in sc)
     if case.get("exhaustive"):
@@ -326,7 +334,7 @@ def strategy(tier):
             scripts.append([enter(), {"s": "exit"}])
         exhaustive = draw(st.integers(0, 3)) == 0
         choices = None if exhaustive else draw(st.lists(st.sampled_from([0, 0, 0, 1, 1, 2]), min_size=0, max_size=16))
-        return {"tasks": scripts, "choices": choices, "exhaustive": exhaustive}
+        return {"tasks": scripts, "choices": choices, "exhaustive": exhaustive, "gc": draw(st.integers(0, 2)) == 0}
 
     @st.composite
     def cases(draw):
@@ -361,7 +369,7 @@ def strategy(tier):
             pos = draw(st.sampled_from(inside)) if inside and draw(st.integers(0, 4)) > 0 else draw(st.integers(0, len(scripts[parent])))
             scripts[parent].insert(pos, {"s": "spawn", "via": draw(st.sampled_from(["ctx", "asyncio", "asyncio"])), "task": child})
         choices = None if exhaustive else draw(st.lists(st.sampled_from([0, 0, 0, 1, 1, 2]), min_size=0, max_size=24))
-        return {"tasks": scripts, "choices": choices, "exhaustive": exhaustive}
+        return {"tasks": scripts, "choices": choices, "exhaustive": exhaustive, "gc": draw(st.integers(0, 3)) == 0}
 
     return st.one_of(cases(), chain())
 
